@@ -4,7 +4,18 @@
 # Meant for `vp run --timeout 8h -- sh tools/run_seeded_all.sh` (results are not evidence).
 ./setup.sh > setup.log 2>&1 || { echo "setup failed"; tail -20 setup.log; exit 2; }
 mkdir -p seeded_logs
-ls seeded | grep -E "${ONLY:-.}" | xargs -P 4 -I{} sh -c 'python3 tools/run_seeded.py seeded/{} --base HEAD --seeds ${SEEDS:-0} > seeded_logs/{}.json 2>&1; python3 - {} <<PY
+# C19's changes edit the translated data file: their checks regenerate lean/OpdaGen from the mutated repository, which every other
+# check running in the same tree at that moment would pick up -- so they run afterwards, one at a time
+ls seeded | grep -E "${ONLY:-.}" | grep -v "^C19-" | xargs -P 4 -I{} sh -c 'python3 tools/run_seeded.py seeded/{} --base HEAD --seeds ${SEEDS:-0} > seeded_logs/{}.json 2>&1; python3 - {} <<PY
+import json,sys
+s=sys.argv[1]
+t=open("seeded_logs/%s.json"%s).read(); i=t.find("{")
+if i<0: print(s,"NO-RESULT",t[-200:].replace("\n"," "))
+else:
+    d=json.loads(t[i:]); own=s.split("-")[0]
+    print(s, "confirmed" if d["confirmed"] else "UNCONFIRMED(clean=%s changed=%s tests=%s)"%(d.get("demo_clean_rc"),d.get("demo_changed_rc"),d.get("tests")), "own-check:%s"%d["detected"].get(own), "every-seed:%s"%d.get("detected_at_every_seed",dict()).get(own), d["detected"])
+PY'
+ls seeded | grep -E "${ONLY:-.}" | grep "^C19-" | xargs -P 1 -I{} sh -c 'python3 tools/run_seeded.py seeded/{} --base HEAD --seeds ${SEEDS:-0} > seeded_logs/{}.json 2>&1; python3 - {} <<PY
 import json,sys
 s=sys.argv[1]
 t=open("seeded_logs/%s.json"%s).read(); i=t.find("{")
